@@ -210,6 +210,24 @@ pub fn generate_font(source: Box<dyn Source>, options: Options) -> Result<Vec<u8
     Ok(be_root.font.get().get().to_vec())
 }
 
+/// Verification hook (C14): like [`generate_font`] but hands back both contexts, so the items in
+/// memory can be compared with what `--emit-ir` wrote.
+#[cfg(fontc_verif)]
+pub fn verif_generate_font_contexts(
+    source: Box<dyn Source>,
+    options: &Options,
+) -> Result<(FeContext, BeContext), Error> {
+    let (fe_root, be_root, _timer) =
+        generate_font_internal(source, options, JobTimer::default())?;
+    Ok((fe_root, be_root))
+}
+
+/// Verification hook (C20): the private flag merge that both entry points go through.
+#[cfg(fontc_verif)]
+pub fn verif_merge_compilation_flags(options: &Options, source: &dyn Source) -> Flags {
+    merge_compilation_flags(options, source)
+}
+
 fn generate_font_internal(
     source: Box<dyn Source>,
     options: &Options,
